@@ -218,10 +218,23 @@ def _run_bd(spec, counters):
     # target and its invocation range in a fresh computation
     top = [r for r in universe if sum(r[3:]) == pr["max_order"]]
     target = top[int(rng.integers(0, len(top)))]
+    # the disturbed request: one element, or several at once (all orders 0..n of the first parameter - this includes the
+    # data-backed zeroth-order start values - or all blocks at the target order)
+    form = str(rng.choice(["el", "el", "orders", "blocks"]))
+    counters[f"faulted_request_{form}"] += 1
+
+    def request(outs_):
+        ser = outs_[target[0]]
+        if form == "orders":
+            return ser[(target[1], target[2], slice(None, target[3] + 1)) + tuple(target[4:])]
+        if form == "blocks":
+            return ser[(slice(None), slice(None)) + tuple(target[3:])]
+        return ser[target[1:]]
+
     ctl = Ctl()
     outs = _build(ctl, pr)
     n_def = ctl.n
-    outs[target[0]][target[1:]]
+    request(outs)
     N = ctl.n
     kinds = Counter(ctl.kinds[n_def:])
     counters["injection_points"] += N - n_def
@@ -239,7 +252,7 @@ def _run_bd(spec, counters):
             counters["define_time_faults"] += 1
             continue
         try:
-            outs[target[0]][target[1:]]
+            request(outs)
         except BaseException as err:  # noqa: BLE001
             _check_propagation(exc_cls, ctl, err)
         else:
